@@ -143,6 +143,31 @@ class CallableObject:
         return dispatch(self.name, args)
 
 
+# (4b) callable objects that are not hashable (a dataclass-like value object with __eq__)
+class ValueLikeCallable:
+    def __init__(self, name: str) -> None:
+        self.name = name
+
+    def __eq__(self, other: Any) -> bool:
+        return isinstance(other, ValueLikeCallable) and other.name == self.name
+
+    __hash__ = None  # type: ignore[assignment]
+
+    def __call__(self, *args: Any) -> Any:
+        return dispatch(self.name, args)
+
+
+class Registry(dict):
+    """A dict subclass (unhashable) whose bound method is handed out as the CEL function."""
+
+    def __init__(self, name: str) -> None:
+        super().__init__()
+        self["name"] = name
+
+    def lookup(self, *args: Any) -> Any:
+        return dispatch(self["name"], args)
+
+
 # (5) bound methods
 class Service:
     def __init__(self, name: str) -> None:
@@ -166,6 +191,10 @@ def make_callable(kind: str, name: str) -> Callable[..., Any]:
         return make_lambda(name)
     if kind == "instance":
         return CallableObject(name)
+    if kind == "unhashable_instance":
+        return ValueLikeCallable(name)
+    if kind == "unhashable_bound_method":
+        return Registry(name).lookup
     if kind == "bound_method":
         return Service(name).handler
     if kind == "partial":
@@ -174,4 +203,5 @@ def make_callable(kind: str, name: str) -> Callable[..., Any]:
 
 
 LIST_FORM_KINDS = ["module_def", "nested_def"]  # need a usable __name__
-DICT_FORM_KINDS = ["module_def", "nested_def", "lambda", "instance", "bound_method", "partial"]
+DICT_FORM_KINDS = ["module_def", "nested_def", "lambda", "instance", "bound_method", "partial",
+                   "unhashable_instance", "unhashable_bound_method"]
